@@ -151,7 +151,8 @@ class C18Bounded(Bounded):
         tricky4 = ["100.0.0.1", "109.1.1.1", "10.1.20.7", "10.112.5.5", "10.1.4.0", "1.0.0.0", "110.1.2.3", "192.168.1.70", "192.168.17.1", "19.2.168.1", "0.0.0.0", "255.255.255.255", "10.0.0.0", "10.255.255.255", "11.0.0.0", "9.255.255.255",
                    "172.16.0.1", "172.160.0.1", "172.1.6.0", "172.31.255.255", "172.32.0.0"]
         tricky6 = ["::1", "::", "abc::", "7fff::1", "8000::", "1::", "2001:db8::1", "2001:db80::1", "2001:db8:1::", "ffff::", "fe80::1"]
-        nets = [["0.0.0.0/0"], ["10.0.0.0/8"], ["10.1.2.0/23"], ["192.168.1.7/32"], ["172.16.0.0/12"], ["0.0.0.0/0", "10.0.0.0/8"], ["10.0.0.0/8", "192.168.1.0/24"], ["128.0.0.0/1"], ["::/0"], ["::/1"], ["::/3"], ["2001:db8::/32"], ["::/0", "2001:db8::/32"]]
+        nets = [["0.0.0.0/0"], ["10.0.0.0/8"], ["10.1.2.0/23"], ["192.168.1.7/32"], ["172.16.0.0/12"], ["0.0.0.0/0", "10.0.0.0/8"], ["10.0.0.0/8", "192.168.1.0/24"], ["128.0.0.0/1"], ["::/0"], ["::/1"], ["::/3"], ["2001:db8::/32"], ["::/0", "2001:db8::/32"],
+                ["192.168.1.0/28"], ["192.168.1.0/25"], ["10.0.0.96/27"], ["192.168.1.16/30", "192.168.1.0/29"], ["2001:db8::/126"], ["2001:db8::10/124"]]          # (expansions that list full addresses: one is a text prefix of another)
         for nl in nets:
             if any(str(ipaddress.ip_network(n)) in KNOWN_V6 for n in nl):
                 continue          # (the listed IPv6 networks of the recorded finding are reported by the expansion check above)
@@ -161,7 +162,7 @@ class C18Bounded(Bounded):
             for n in parsed:
                 lo, hi = int(n.network_address), int(n.broadcast_address)
                 mx = 2 ** (128 if v6 else 32) - 1
-                for x in (lo, hi, (lo + hi) // 2, lo - 1, hi + 1):
+                for x in [lo, hi, (lo + hi) // 2, lo - 1, hi + 1] + ([lo + i for i in range(hi - lo + 1)] if hi - lo < 300 else []):
                     if 0 <= x <= mx:
                         addrs.append(str(ipaddress.ip_address(x)) if not v6 else str(ipaddress.IPv6Address(x)))
             rule = "title: t\nlogsource:\n  category: c\ndetection:\n  s:\n    f|cidr:\n" + "".join(f"      - '{n}'\n" for n in nl) + "  condition: s\n"
